@@ -129,6 +129,8 @@ pub struct NodeCfg {
     /// sync mode: when Ready::must_sync() is false the application does not fsync before
     /// sending and advancing (the hard-state write stays in the page cache)
     pub skip_sync_when_allowed: bool,
+    /// applied state is written synchronously to a store of its own (not part of the raft WAL)
+    pub split_app_store: bool,
     /// this node exists from the start (false: created later by Restart — a spare)
     pub boot: bool,
     pub group_id: u64,
@@ -158,6 +160,7 @@ impl NodeCfg {
             apply_lag: false,
             loose_async: false,
             skip_sync_when_allowed: false,
+            split_app_store: false,
             boot: true,
             group_id: 0,
         }
@@ -210,6 +213,11 @@ pub struct Scenario {
     pub mix_proposals: bool,
     /// nodes that stay down once crashed (no Restart action)
     pub down_forever: Vec<u8>,
+    /// compaction the way MemStorage::compact does it: the applied entry stays as the first
+    /// entry and the storage answers Compacted for the term of the entry before it
+    pub mem_compact: bool,
+    /// LEASE: MsgSnapshot between lock-step nodes never arrives
+    pub lock_snap_lost: bool,
     pub note: String,
 }
 
@@ -241,6 +249,8 @@ impl Scenario {
             lock_majority: vec![],
             mix_proposals: false,
             down_forever: vec![],
+            mem_compact: false,
+            lock_snap_lost: false,
             note: String::new(),
         }
     }
@@ -287,6 +297,7 @@ pub enum Stat {
     JointEntered,
     LiveSuffixRuns,
     TermRaises,
+    LiveSlowSnapRuns,
     _N,
 }
 pub const NSTAT: usize = Stat::_N as usize;
@@ -328,6 +339,7 @@ pub const STAT_NAMES: [&str; NSTAT] = [
     "joint_entered",
     "live_suffix_runs",
     "term_raises",
+    "live_slow_snapshot_suffix_runs",
 ];
 
 pub struct Ctx {
